@@ -158,17 +158,23 @@ theorem cancel_returns_error (evs : List Ev) (i : Nat)
     simp [step, h2]
   rw [h3, upd_reqs_same]
 
-/-- **4b. closing the connection fails every pending request**: when dispatch sees its context done
-it completes every registered request (error `errClosed` for each caller whose own context is still
-live), empties the table and stops. -/
+/-- **4b. closing the connection fails every pending request**: when dispatch sees its context done it
+empties the table, stops, and EVERY registered request gets exactly one completion (its reply channel
+is closed exactly once, by the table copy): a caller whose own context is still live receives the
+error `errClosed`; for a caller whose context had already ended the channel is closed without anybody
+blocking — that caller either still takes the error or keeps/gets its context error, and in every case
+it has returned once it takes its `ctx.Done` alternative. -/
 theorem close_fails_pending (evs : List Ev) (win : List Nat)
     (hc : (run init evs).conn.ctxDone = true) (hl : (run init evs).conn.stopped = false) :
     let s' := step (run init evs) (.ctxDone win)
     s'.conn.pending = [] ∧ s'.conn.stopped = true ∧
     ∀ k i, (k, i) ∈ (run init evs).conn.pending →
-      (s'.reqs i).closes = 1 ∧
-      (((run init evs).reqs i).ctxDone = false → (s'.reqs i).waiter = .got .errClosed) ∧
-      (s'.reqs i).waiter ≠ .waiting ∨ ((run init evs).reqs i).ctxDone = true := by
+      ((s'.reqs i).closes = 1 ∧ (s'.reqs i).onceT = true) ∧
+      (((run init evs).reqs i).ctxDone = false →
+          (s'.reqs i).waiter = .got .errClosed ∧ (s'.reqs i).vals = [.errClosed]) ∧
+      (((run init evs).reqs i).ctxDone = true →
+          ((s'.reqs i).waiter = ((run init evs).reqs i).waiter ∨ (s'.reqs i).waiter = .got .errClosed) ∧
+          ((step s' (.waiterCtx i)).reqs i).waiter ≠ .waiting) := by
   have hs := run_inv evs init Inv.init
   generalize run init evs = s at *
   intro s'
@@ -187,21 +193,42 @@ theorem close_fails_pending (evs : List Ev) (win : List Nat)
       simp only [List.contains_iff_mem, List.mem_map]
       exact ⟨(k, i), hki, rfl⟩
     rw [this]; rfl
-  by_cases hctx : (s.reqs i).ctxDone = true
-  · right; exact hctx
-  · left
-    have hctx' : (s.reqs i).ctxDone = false := by simpa using hctx
+  have honce : (s'.reqs i).onceT = true := by
+    have := complete_once (s.reqs i) .table .errClosed (win.contains i) .table
+    simp only [Req.once] at this
+    rw [hreq, this]; simp
+  have hcl : (s'.reqs i).closes = 1 := by
+    rcases complete_cases (s.reqs i) .table .errClosed (win.contains i) with ⟨h1, _⟩ | ⟨_, _, e⟩ | ⟨_, _, e⟩
+    · rw [hfresh.2 .table] at h1; simp at h1
+    · rw [hreq, e]; show (s.reqs i).closes + 1 = 1; rw [hfresh.1]
+    · rw [hreq, e]; show (s.reqs i).closes + 1 = 1; rw [hfresh.1]
+  refine ⟨⟨hcl, honce⟩, ?_, ?_⟩
+  · intro hctx'
     have hwait : (s.reqs i).waiter = .waiting := by
       cases hw : (s.reqs i).waiter
       · rfl
       · have := hr.wctx (by rw [hw]; simp); rw [hctx'] at this; simp at this
       · have := hr.wctx (by rw [hw]; simp); rw [hctx'] at this; simp at this
+    have hvals : (s.reqs i).vals = [] := by rw [hr.vals, hwait]
     rcases complete_cases (s.reqs i) .table .errClosed (win.contains i) with ⟨h1, _⟩ | ⟨_, _, e⟩ | ⟨_, hd, _⟩
     · rw [hfresh.2 .table] at h1; simp at h1
     · rw [hreq, e]
-      refine ⟨?_, fun _ => rfl, by simp⟩
-      show (s.reqs i).closes + 1 = 1; rw [hfresh.1]
+      refine ⟨rfl, ?_⟩
+      show (s.reqs i).vals ++ [Res.errClosed] = _; rw [hvals]; rfl
     · exact absurd ⟨hwait, Or.inl hctx'⟩ hd
+  · intro hctx
+    have hw' : (s'.reqs i).waiter = (s.reqs i).waiter ∨ (s'.reqs i).waiter = .got .errClosed := by
+      rcases complete_waiter (s.reqs i) .table .errClosed (win.contains i) with h1 | ⟨_, _, h3⟩
+      · left; rw [hreq]; exact h1
+      · right; rw [hreq]; exact h3
+    have hctx' : (s'.reqs i).ctxDone = true := by
+      rw [hreq]; exact complete_ctx _ _ _ _ hctx
+    refine ⟨hw', ?_⟩
+    simp only [step]
+    by_cases hg : (s'.reqs i).waiter = .waiting ∧ (s'.reqs i).ctxDone = true
+    · rw [if_pos hg, upd_reqs_same]; simp
+    · rw [if_neg hg]
+      intro hwt; exact hg ⟨hwt, hctx'⟩
 
 /-- a reply that comes after its request was cancelled completes nothing and closes nothing -/
 theorem late_reply_ignored (evs : List Ev) (k m i : Nat) (race win : Bool)
